@@ -22,11 +22,20 @@
    folder, all readers alive before the first read (half opened later), reads in turn, repeated calls, failing calls,
    close + open, and the files of a recording replaced under the same names.  A reader that raises at construction is
    a violation (open:Raised), not a machinery failure.
+7. robustness (exit 2 is not a detection): everything the reader hands out is observed defensively.  raw_channel_order /
+   geometry / shape that are None, strings, NaN, of another dimensionality, missing or raising become the negative
+   observation of Order / Geometry / Shape (obs_order, obs_geometry, obs_shape_ok; an order that is not nc column numbers
+   is decided in Python as open:Order and its reads are not handed to the implementation layer); a result that is no array
+   of real numbers (None, str, complex) has shape [NOSHAPE] / no cell's value (read:Shape / read:Value); close() / open() of
+   a reader in use that raise, and a compress_file that returns no path or leaves no readable .cbin / .ch, are open:Raised
+   (Session.lifecycle, compress); the reads made before are still judged.  Only the harness's own assumptions (TLC, the
+   export, chunk bounds that are readable but not multiples of K, the self-tests) stay machinery failures.
 """
 import copy
 import logging
 import os
 import random
+import shutil
 from pathlib import Path
 
 os.environ.setdefault("TQDM_DISABLE", "1")
@@ -36,6 +45,7 @@ from vkit import metagen, tlc, tracecheck  # noqa: E402
 import c08  # noqa: E402  (projection of Reader.geometry, generation names)
 
 NONE = 1000000
+NOSHAPE = -1         # "shape" of a result that is no array of numbers (None, a string, ...): equal to no shape
 GAINS = [50, 125, 250, 500, 1000, 1500, 2000, 3000]
 RTOL = 2e-6
 TRACE = ("trace/ReaderTrace.tla", "trace/ReaderTrace.cfg")
@@ -161,10 +171,10 @@ def compress(rec, K, ctx=None, hist=None):
     import spikeglx
     try:
         sr = spikeglx.Reader(rec["bin"], sort=False)
-        if ctx is not None and tuple(sr.shape) != (rec["ns"], rec["nc"]):
+        if ctx is not None and not obs_shape_ok(sr, rec):
             # the whole array the property indexes is not the file's: no chunking of it can be what the model assumes
             ctx.violation("open:Shape", f"{describe(rec['spec'], 'bin', 0, False, rec['ns'], rec['nc'])}: Reader({rec['bin'].name}).shape is "
-                          f"{tuple(sr.shape)}, the recording written is {(rec['ns'], rec['nc'])}",
+                          f"{shape_repr(sr)}, the recording written is {(rec['ns'], rec['nc'])}",
                           {"spec": rec["spec"], "fmt": "bin", "K": 0, "sort": False, "read": None} | ({"hist": hist} if hist else {}))
             sr.close()
             return None
@@ -175,9 +185,23 @@ def compress(rec, K, ctx=None, hist=None):
             raise
         open_raised(ctx, rec, "bin", 0, False, rec["bin"], e, hist)
         return None
-    # chunk bounds straight from the header file mtscomp wrote (no private attribute of the Reader involved)
+    # chunk bounds straight from the header file mtscomp wrote (no private attribute of the Reader involved).  What
+    # compress_file returned and left on disk is the library's: a return value that is no path, a .cbin / .ch that is
+    # not there or not readable means there is no compressed recording to index (same verdict as compress_file raising)
     import json as _json
-    bounds = list(_json.loads(Path(cb).with_suffix(".ch").read_text())["chunk_bounds"])
+    ret = cb
+    try:
+        cb = Path(ret)
+        if not cb.is_file() or cb.suffix != ".cbin":
+            raise FileNotFoundError(f"no compressed file at the path returned ({ret!r})")
+        bounds = [int(v) for v in _json.loads(cb.with_suffix(".ch").read_text())["chunk_bounds"]]
+    except (TypeError, ValueError, KeyError, OSError) as e:
+        if ctx is None:
+            raise
+        open_raised(ctx, rec, "cbin", K, False, rec["bin"], e, hist,
+                    told=f"Reader({rec['bin'].name}).compress_file(keep_original=True, chunk_duration={K} samples) returned {ret!r:.80} "
+                         f"and left no readable .cbin / .ch ({type(e).__name__}: {e})")
+        return None
     if bounds != list(range(0, rec["ns"], K)) + [rec["ns"]]:
         raise tlc.TLCError(f"mtscomp chunk bounds {bounds} are not multiples of {K}")
     return cb
@@ -201,11 +225,15 @@ def decoder(data, factors, classes):
 
 
 def decode(dec, out):
+    out = np.asarray(out)
+    notreal = np.zeros(out.size, dtype=bool)
+    if out.dtype.kind == "c":        # a voltage is a real number: a value with an imaginary part is no cell's
+        notreal, out = (out.imag != 0).reshape(-1), out.real
     v = np.asarray(out, dtype=np.float64).reshape(-1)
     sv = dec["sorted"]
     i = np.clip(np.searchsorted(sv, v), 1, len(sv) - 1)
     i = np.where(np.abs(sv[i - 1] - v) <= np.abs(sv[i] - v), i - 1, i)
-    ok = np.isfinite(v) & (np.abs(sv[i] - v) <= RTOL * np.abs(sv[i]))
+    ok = np.isfinite(v) & (np.abs(sv[i] - v) <= RTOL * np.abs(sv[i])) & ~notreal
     t, c, q = np.unravel_index(dec["order"][i], dec["shape"])
     return [[int(a), int(b), int(dec["qs"][k])] if g else [-1, -1, -1] for a, b, k, g in zip(t, c, q, ok)]
 
@@ -248,15 +276,67 @@ def scribble(v):
         v[...] = 77 if v.dtype.kind in "iu" else 1.2345e6
 
 
+# ---- observers: what the reader's attributes hand out, taken defensively.  Anything that is not what the property promises
+# (None, strings, NaN, another dimensionality, an attribute that raises or is not there) becomes the negative observation
+# of the clause that reads it (Order / Geometry / Shape), never an exception of the harness
+def obs_order(sr):
+    """raw_channel_order as a list of integers; entries that are no channel numbers -> c08.BAD (equal to no column)"""
+    try:
+        a = np.asarray(sr.raw_channel_order)
+        if a.dtype.kind not in "iuf":
+            return [c08.BAD] * max(1, int(a.size))
+        a = a.astype(np.float64).reshape(-1)
+        r = np.rint(a)
+        ok = np.isfinite(a) & (a == r) & (np.abs(r) < 2 ** 30)
+        return [int(v) if o else c08.BAD for v, o in zip(np.where(ok, r, 0), ok)]
+    except Exception:
+        return [c08.BAD]
+
+
+def obs_geometry(sr, gen):
+    """Reader.geometry projected to the rows of the specification; [] when there is no table of numbers to project"""
+    try:
+        g = sr.geometry
+    except Exception:
+        return [] if gen else [[c08.BAD] * 9]
+    if not gen:
+        return [] if g is None else [[c08.BAD] * 9]
+    try:
+        return c08.project(g, gen)
+    except (TypeError, ValueError, KeyError, IndexError, AttributeError, OverflowError):
+        return []
+
+
+def obs_shape_ok(sr, rec):
+    try:
+        shp = tuple(sr.shape)
+        return len(shp) == 2 and all(isinstance(v, (int, np.integer)) and not isinstance(v, bool) for v in shp) and \
+            (int(shp[0]), int(shp[1])) == (rec["ns"], rec["nc"])
+    except Exception:
+        return False
+
+
+def shape_repr(sr):
+    try:
+        return repr(sr.shape)[:80]
+    except Exception as e:
+        return f"<raises {type(e).__name__}>"
+
+
+def order_ok(t):
+    """the order observed is a sequence of nc column numbers 0..nc-1 (what clause Order demands first)"""
+    return len(t["order"]) == t["nc"] and all(0 <= v < t["nc"] for v in t["order"])
+
+
 def open_trace(rec, path, fmt, K, sort, opened=True):
     import spikeglx
     logging.disable(logging.CRITICAL)
     sr = spikeglx.Reader(path, sort=sort) if opened else spikeglx.Reader(path, sort=sort, open=False)
-    hdr = c08.project(sr.geometry, rec["gen"]) if rec["gen"] else ([] if sr.geometry is None else [[c08.BAD] * 9])
-    order = [int(v) for v in np.asarray(sr.raw_channel_order).reshape(-1)]
+    hdr = obs_geometry(sr, rec["gen"])
+    order = obs_order(sr)
     t = {"ns": rec["ns"], "nc": rec["nc"], "nsync": rec["nsync"], "fmt": fmt, "K": K, "sort": bool(sort), "gen": rec["gen"],
          "sites": rec["sites"], "gain": rec["classes"], "order": order, "hdr": hdr, "reads": [],
-         "spec": rec["spec"], "shape_ok": (not opened) or tuple(sr.shape) == (rec["ns"], rec["nc"])}
+         "spec": rec["spec"], "shape_ok": (not opened) or obs_shape_ok(sr, rec)}
     return sr, t
 
 
@@ -264,10 +344,12 @@ def describe(spec, fmt, K, sort, ns, nc):
     return f"{spec['kind']} {fmt}{'/K=' + str(K) if fmt == 'cbin' else ''} sort={sort} ns={ns} nc={nc}"
 
 
-def open_raised(ctx, rec, fmt, K, sort, path, e, hist):
-    """ "for any SpikeGLX recording": a reader that cannot be made returns nothing at all"""
-    ctx.violation("open:Raised", f"{describe(rec['spec'], fmt, K, sort, rec['ns'], rec['nc'])}: Reader({Path(path).name}, "
-                  f"sort={sort}) raised {type(e).__name__}: {e}"[:300],
+def open_raised(ctx, rec, fmt, K, sort, path, e, hist, what=None, told=None):
+    """ "for any SpikeGLX recording": a reader that cannot be made returns nothing at all.  `what`: the call that raised when
+    it is not the constructor (close / open of a reader in use); `told`: the whole account when nothing raised but no reader
+    can be had (compress_file leaving no file)"""
+    told = told or f"{what or f'Reader({Path(path).name}, sort={sort})'} raised {type(e).__name__}: {e}"
+    ctx.violation("open:Raised", f"{describe(rec['spec'], fmt, K, sort, rec['ns'], rec['nc'])}: {told}"[:300],
                   {"spec": rec["spec"], "fmt": fmt, "K": K, "sort": sort, "read": None} | ({"hist": hist} if hist else {}))
 
 
@@ -277,6 +359,7 @@ class Session:
 
     def __init__(self, ctx, rec, path, fmt, K, sort, opened=True, per_trace=150, hist=None):
         self.rec, self.fmt, self.per_trace, self.traces, self.objs, self.sr, self.opened = rec, fmt, per_trace, [], {}, None, opened
+        self.ctx, self.dead = ctx, False
         if path is None:             # the recording could not be compressed: already reported by compress()
             return
         try:
@@ -288,12 +371,33 @@ class Session:
             self.head["hist"] = hist
         if not self.head["shape_ok"]:
             ctx.violation("open:Shape", f"{describe(rec['spec'], fmt, K, sort, rec['ns'], rec['nc'])}: Reader({Path(path).name}).shape is "
-                          f"{tuple(self.sr.shape)}, the recording written is {(rec['ns'], rec['nc'])}", scenario(self.head, None))
+                          f"{shape_repr(self.sr)}, the recording written is {(rec['ns'], rec['nc'])}", scenario(self.head, None))
+        if not order_ok(self.head):
+            # clause Order starts with "a sequence of nc column numbers": decided here, and the reads of such a reader are not
+            # handed to the implementation layer (which indexes the gains with the order observed)
+            ctx.violation("open:Order", f"{describe(rec['spec'], fmt, K, sort, rec['ns'], rec['nc'])}: raw_channel_order of "
+                          f"Reader({Path(path).name}) is not a sequence of the {rec['nc']} column numbers: {self.head['order'][:12]} "
+                          f"({c08.BAD}: not an integer)", scenario(self.head, None))
+            self.lifecycle("close()", self.sr.close)
+            self.dead = True
         self.dec = decoder(rec["data"], rec["factors"], rec["classes"])
         self.cur = None
 
+    def lifecycle(self, what, *calls):
+        """close() / open() of a reader in use: one that raises leaves no reader to read from (open:Raised); the reads
+        made so far are judged all the same"""
+        try:
+            for fn in calls:
+                fn()
+            return True
+        except Exception as e:
+            open_raised(self.ctx, self.rec, self.head["fmt"], self.head["K"], self.head["sort"], None, e, self.head.get("hist"),
+                        what=f"{what} of the reader in use")
+            self.dead = True
+            return False
+
     def read(self, api, nsel, csel, form=False):
-        if self.sr is None:
+        if self.sr is None or self.dead:
             return
         if self.cur is None or len(self.cur["reads"]) >= self.per_trace:
             self.cur = copy.deepcopy(self.head)
@@ -302,17 +406,26 @@ class Session:
              "nsel": nsel, "csel": csel, "form": int(form), "shape": [], "toks": [], "exc": ""}
         try:
             v = do_read(self.sr, api, nsel, csel, form, np_rows=self.fmt == "bin", objs=self.objs)
-            r["shape"] = [int(x) for x in np.shape(v)]
-            r["toks"] = decode(self.dec, v)
-            scribble(v)
         except Exception as e:
             r["exc"] = f"{type(e).__name__}: {e}"[:200]
+        else:
+            try:        # decoding of what was returned: something that is no array of numbers has no shape the property knows
+                r["shape"] = [int(x) for x in np.shape(v)]
+                r["toks"] = decode(self.dec, v)
+                if not isinstance(v, (np.ndarray, np.generic, list, tuple, int, float)):
+                    raise TypeError(f"a {type(v).__name__} is not an array")
+            except (TypeError, ValueError, OverflowError, AttributeError) as e:
+                r["shape"], r["toks"], r["note"] = [NOSHAPE], [], f"returned {type(v).__name__} ({type(e).__name__}: {e})"[:160]
+            try:
+                scribble(v)
+            except Exception:
+                pass
         self.cur["reads"].append(r)
 
     def poke(self, k):
         """a call that cannot succeed (no result to judge): the reader must serve the reads that follow all the same"""
         ns, nc = self.rec["ns"], self.rec["nc"]
-        if self.sr is None:
+        if self.sr is None or self.dead:
             return
         try:
             if k % 4 == 0:
@@ -327,14 +440,13 @@ class Session:
             pass
 
     def reopen(self):
-        if self.sr is not None:
-            self.sr.close()
-            self.sr.open()
+        if self.sr is not None and not self.dead:
+            self.lifecycle("close() + open()", self.sr.close, self.sr.open)
 
     def migrate(self, ctx, to, K=0):
         """the reader follows its file: decompress_file / compress_file(keep_original=False) change the object in place,
         open() then maps the new file; the reads that follow are reads of a bin / cbin reader like any other"""
-        if self.sr is None:
+        if self.sr is None or self.dead:
             return
         try:
             if to == "bin":
@@ -346,23 +458,24 @@ class Session:
         except Exception as e:
             open_raised(ctx, self.rec, to, K, self.head["sort"], f"<the reader after {'de' if to == 'bin' else ''}compress_file>", e,
                         self.head.get("hist"))
-            self.sr = None
+            self.dead = True         # (the reads made before are judged all the same)
             return
         self.fmt = to
         self.head = dict(self.head, fmt=to, K=K)
         self.cur = None
 
     def open(self):
-        if self.sr is not None and not self.opened:
-            self.sr.open()
+        if self.sr is not None and not self.opened and not self.dead:
+            self.lifecycle("open() after Reader(open=False)", self.sr.open)
             self.opened = True
 
     def close(self):
         """-> traces (a reader without reads still gives its open step)"""
         if self.sr is None:
             return []
-        self.sr.close()
-        return self.traces or [copy.deepcopy(self.head)]
+        if not self.dead:
+            self.lifecycle("close()", self.sr.close)
+        return self.traces or ([copy.deepcopy(self.head)] if order_ok(self.head) else [])
 
 
 def record_reads(ctx, rec, path, fmt, K, sort, reads, per_trace=150):
@@ -412,7 +525,7 @@ def judge(ctx, trs, label, jvms=4):
             else:
                 r = t["reads"][k - 1]
                 key = KNOWN_F12 if (is_f12(t["fmt"], r["nsel"]) and clause in ("Shape", "Layout")) else "read:" + clause
-                what = r["exc"] if clause == "Raised" else f"shape {r['shape']}"
+                what = r["exc"] if clause == "Raised" else f"shape {r['shape']}" + (f" - {r['note']}" if r.get("note") else "")
                 ctx.violation(key, f"{desc}: clause {clause} false on {r['call']}(nsel={show(r['nsel'])}, csel={show(r['csel'])}): {what}",
                               scenario(t, r))
         elif v["impl"]:
@@ -771,6 +884,30 @@ def history_axis(ctx, by_n, maxn, seed, quick):
     talk(third, rounds)
     for ses in third:
         trs += ses.close()
+    # the recording reached through symbolic links (seed round i): the binaries live in a store under other names, the session
+    # folder holds the links and the regular companions (.meta, .ch) - gains, geometry and column order are those of the metadata
+    # next to the link
+    for (rec, K), cb in ((recs[3], cbins[3]), ((rec2, K2), cb2)):
+        ldir = root / f"linked_{rec['spec']['kind'].replace('.', '')}"
+        (ldir / "store").mkdir(parents=True, exist_ok=True)
+        (ldir / "session").mkdir(exist_ok=True)
+        forms = [("bin", rec["bin"], 0)] + ([("cbin", cb, K)] if cb is not None and Path(cb).exists() else [])
+        linked = []
+        for fmt, src, k in forms:
+            src = Path(src)
+            if not src.exists():
+                continue
+            blob = ldir / "store" / f"blob_{fmt}.dat"
+            shutil.copy(src, blob)
+            lk = ldir / "session" / src.name
+            lk.symlink_to(blob)
+            for comp in (".meta", ".ch"):
+                if src.with_suffix(comp).exists():
+                    shutil.copy(src.with_suffix(comp), lk.with_suffix(comp))
+            linked += [Session(ctx, rec, lk, fmt, k, sort, hist=hist) for sort in (True, False)]
+        talk(linked, rounds // 4)
+        for ses in linked:
+            trs += ses.close()
     # a reader that follows its file: made on p1/rec.ap.cbin (its .bin gone), decompressed in place, compressed in place
     rec, K = recs[3]
     if cbins[3] is not None:
@@ -784,7 +921,7 @@ def history_axis(ctx, by_n, maxn, seed, quick):
             talk([ses], rounds // 2)
             trs += ses.close()
             K = 5 - K
-            if ses.sr is None:       # the reader was lost on the way (reported): the files are not where the next one expects them
+            if ses.sr is None or ses.dead:       # the reader was lost on the way (reported): the files are not where the next one expects them
                 break
     return trs
 
@@ -853,6 +990,8 @@ def big_files(ctx, rnd, big):
                     ncomp += 1
                     try:
                         got = np.asarray(do_read(sr, "getitem2", rsel, csel, array=form_of(ncomp), np_rows=fmt == "bin"))
+                        if got.dtype.kind == "c" and np.any(got.imag != 0):
+                            raise TypeError("complex values returned")
                         ok = list(got.shape) == shape and np.all(np.abs(got.reshape(exp.shape).astype(np.float64) - exp) <= RTOL * np.abs(exp))
                         what = f"shape {list(got.shape)} expected {shape}" if list(got.shape) != shape else "values differ from float32(raw) x factor"
                     except Exception as ex:
@@ -863,7 +1002,10 @@ def big_files(ctx, rnd, big):
                         ctx.violation(key, f"{spec['kind']} 385x385 {fmt} sort={sort}: sr[{show(rsel)}, {show(csel)}]: {what}",
                                       {"spec": {k: v for k, v in spec.items()}, "fmt": fmt, "K": KK, "sort": sort,
                                        "read": {"call": "getitem2", "nsel": rsel, "csel": csel, "form": form_of(ncomp)}, "big": True})
-                sr.close()
+                try:
+                    sr.close()
+                except Exception as e:
+                    open_raised(ctx, rec, fmt, KK, sort, path, e, None, what="close() of the reader in use")
     ctx.count(ncomp)
     ctx.cov["big_reads_compared_with_exported_positions"] = ncomp
     # order / geometry of the big files: judged by the trace spec (no reads)
@@ -904,25 +1046,43 @@ def all_values(ctx):
             ctx.violation("open:Raised", f"{kind} {stream} 65536 samples: opening / compressing raised {type(e).__name__}: {e}"[:300],
                           {"spec": spec, "allvalues": True})
             continue
-        for path in (rec["bin"], cb):
+        for path, sfx in ((rec["bin"], ".bin"), (cb, ".cbin")):
             try:
                 sr = spikeglx.Reader(path, sort=False)
-                got = np.asarray(sr[:, :]).astype(np.float64)
+                got = sr[:, :]
                 sr.close()
             except Exception as e:
-                ctx.violation("read:Raised", f"{kind} {stream} {path.suffix}: sr[:, :] on 65536 samples raised {type(e).__name__}: {e}"[:300],
+                ctx.violation("read:Raised", f"{kind} {stream} {sfx}: sr[:, :] on 65536 samples ({str(path)[-60:]}) raised {type(e).__name__}: {e}"[:300],
                               {"spec": spec, "allvalues": True})
                 continue
-            err = np.abs(got - exp) > RTOL * np.abs(exp)
+            try:        # what was returned as an array of real numbers; anything else has no cell equal to float32(raw) x factor
+                ret, got = type(got).__name__, np.asarray(got)
+                if got.dtype.kind == "c" and np.any(got.imag != 0):
+                    raise TypeError("complex values")
+                got = got.astype(np.float64)
+            except (TypeError, ValueError) as e:
+                got = np.zeros(0)
+                ctx.violation("read:Value", f"{kind} {stream} {sfx}: sr[:, :] returned a {ret} that is no array of numbers ({type(e).__name__}: {e})"[:300],
+                              {"spec": spec, "allvalues": True})
+                continue
             n += got.size
-            if got.shape != exp.shape or err.any():
-                t, c = (np.argwhere(err)[0] if got.shape == exp.shape else (0, 0))
-                ctx.violation("read:Value", f"{kind} {stream} {path.suffix}: raw {int(data[t, c])} on column {c} returned {got[t, c] if got.shape == exp.shape else got.shape} "
+            if got.shape != exp.shape:
+                ctx.violation("read:Value", f"{kind} {stream} {sfx}: sr[:, :] returned shape {got.shape}, the file holds {exp.shape}: no cell-by-cell "
+                              f"float32(raw) x factor", {"spec": spec, "allvalues": True})
+                continue
+            err = ~(np.abs(got - exp) <= RTOL * np.abs(exp))
+            if err.any():
+                t, c = np.argwhere(err)[0]
+                ctx.violation("read:Value", f"{kind} {stream} {sfx}: raw {int(data[t, c])} on column {c} returned {got[t, c]} "
                               f"instead of float32(raw) x {rec['factors'][c]}", {"spec": spec, "allvalues": True})
             sync = slice(rec["nc"] - rec["nsync"], rec["nc"])
-            if got.shape == exp.shape and not np.array_equal(got[:, sync], data[:, sync].astype(np.float64)):
-                ctx.violation("read:SyncUnit", f"{kind} {path.suffix}: sync column scaled", {"spec": spec, "allvalues": True})
-        srb.close()
+            if not np.array_equal(got[:, sync], data[:, sync].astype(np.float64)):
+                ctx.violation("read:SyncUnit", f"{kind} {sfx}: sync column scaled", {"spec": spec, "allvalues": True})
+        try:
+            srb.close()
+        except Exception as e:
+            ctx.violation("open:Raised", f"{kind} {stream} 65536 samples: close() of the reader in use raised {type(e).__name__}: {e}"[:300],
+                          {"spec": spec, "allvalues": True})
     ctx.count(n // 65536)
     ctx.cov["all_values_cells"] = n
 
@@ -1009,8 +1169,8 @@ def replay(ctx, sc):
         full = rec["data"].astype(np.float32).astype(np.float64)[:, porder] * rec["factors"][porder]
         rr, cc = np_entry(385, rd["nsel"]), np_entry(385, rd["csel"])
         exp = full[np.ix_(rr["idx"], cc["idx"])]
-        sr = spikeglx.Reader(path, sort=sc["sort"])
         try:
+            sr = spikeglx.Reader(path, sort=sc["sort"])
             got = np.asarray(do_read(sr, "getitem2", rd["nsel"], rd["csel"], array=rd.get("form", False), np_rows=sc["fmt"] == "bin"))
             ok = got.size == exp.size and np.all(np.abs(got.reshape(exp.shape).astype(np.float64) - exp) <= RTOL * np.abs(exp))
         except Exception:
